@@ -61,6 +61,20 @@ var muxExecPackages = []string{
 	"./common/quantity",
 }
 
+// methods of api.ApplicationState / ApplicationQueryState (and fields of abci.applicationState)
+// that expose node-LOCAL, non-consensus data. The remaining methods are derived from
+// consensus state: InitialHeight, StateRootHash, ConsensusParameters, BlockContext,
+// GetBaseEpoch, GetCurrentEpoch, EpochChanged, LastHeight, GetEpoch, NewContext.
+var nodeLocalMethods = map[string]bool{
+	"Upgrader": true, "LocalMinGasPrice": true, "OwnTxSigner": true, "OwnTxSignerAddress": true,
+	"Checkpointer": true, "LastRetainedVersion": true, "shouldLocalHalt": true,
+}
+
+var nodeLocalFields = map[string]bool{
+	"minGasPrice": true, "ownTxSigner": true, "ownTxSignerAddress": true, "identity": true,
+	"haltEpoch": true, "haltHeight": true, "upgrader": true, "statePruner": true, "checkpointer": true,
+}
+
 type mapSite struct {
 	File  string `json:"file"`
 	Func  string `json:"func"`
@@ -88,6 +102,8 @@ var siteClasses = map[string]bool{
 	"NotInExecPath":    true, // not reachable from InitChain/BeginBlock/DeliverTx/EndBlock/Commit (client side, queries, genesis export, pretty printing, tests helpers)
 	"LocalOnly":        true, // node-local by design and not feeding state, events or results (CheckTx-only, metrics, logging, pruning, halt hooks)
 	"UnsafeDebugFlag":  true, // reads the process-wide unsafe debug flag (debug.dont_blame_oasis) inside consensus-relevant code: replicas agree only if they agree on the flag; documented as never to be set in production
+	"LoggedOnly":       true, // node-local read/call whose result is only logged (or discarded): it cannot flow into state, events or results (lemma exec_block_ignores_local_oracle)
+	"HaltsNode":        true, // node-local result can only stop this node (ErrStopForUpgrade / panic before anything is committed); it never changes what a node that keeps running computes
 	"Deterministic":    true, // (non-map kinds) value is consensus-determined despite the API used (e.g. rand seeded from the beacon)
 }
 
@@ -172,6 +188,43 @@ func genMuxMapSites() error {
 					}
 					return nil
 				}
+				// like enclosingStmt, but when the statement is the Init of an if/switch (or the call is in
+				// its condition), the whole if/switch with its body: what is DONE with the result matters
+				enclosingStmtWithBody := func() ast.Node {
+					var inner ast.Stmt
+					for i := len(stack) - 1; i >= 0; i-- {
+						st, ok := stack[i].(ast.Stmt)
+						if !ok {
+							continue
+						}
+						if _, isBlock := st.(*ast.BlockStmt); isBlock {
+							if inner != nil {
+								return inner
+							}
+							continue
+						}
+						if inner == nil {
+							inner = st
+							switch st.(type) {
+							case *ast.IfStmt, *ast.SwitchStmt, *ast.TypeSwitchStmt:
+								return st
+							}
+							continue
+						}
+						switch o := st.(type) {
+						case *ast.IfStmt:
+							if o.Init == inner {
+								return o
+							}
+						case *ast.SwitchStmt:
+							if o.Init == inner {
+								return o
+							}
+						}
+						return inner
+					}
+					return inner
+				}
 				ast.Inspect(fd.Body, func(n ast.Node) bool {
 					if n == nil {
 						stack = stack[:len(stack)-1]
@@ -223,6 +276,35 @@ func genMuxMapSites() error {
 							}
 						}
 					case *ast.SelectorExpr:
+						if sel := p.TypesInfo.Selections[x]; sel != nil {
+							rt := sel.Recv()
+							if pt, ok := rt.(*types.Pointer); ok {
+								rt = pt.Elem()
+							}
+							if nt, ok := rt.(*types.Named); ok && nt.Obj().Pkg() != nil {
+								tp, tn, m := nt.Obj().Pkg().Path(), nt.Obj().Name(), x.Sel.Name
+								kind := ""
+								switch {
+								case strings.HasSuffix(tp, "/go/upgrade/api") && tn == "Backend" && sel.Kind() == types.MethodVal:
+									kind = "upgrader." + m
+								case (strings.HasSuffix(tp, "/consensus/cometbft/api") && (tn == "ApplicationState" || tn == "ApplicationQueryState" || tn == "MockApplicationState")) ||
+									(strings.HasSuffix(tp, "/consensus/cometbft/abci") && tn == "applicationState"):
+									if sel.Kind() == types.MethodVal && nodeLocalMethods[m] {
+										kind = "local." + m
+									}
+									if sel.Kind() == types.FieldVal && nodeLocalFields[m] {
+										kind = "local-field." + m
+									}
+								}
+								if kind != "" {
+									st := enclosingStmtWithBody()
+									if st == nil {
+										st = x
+									}
+									add(fd, kind, st)
+								}
+							}
+						}
 						if x.Sel.Name == "GlobalConfig" {
 							if id, ok := x.X.(*ast.Ident); ok {
 								if _, ok := p.TypesInfo.Uses[id].(*types.PkgName); ok {
@@ -300,7 +382,7 @@ func genMuxMapSites() error {
 	sb.WriteString("   replica-local nondeterminism in the packages executed during block processing, with the\n")
 	sb.WriteString("   class from the reviewed table coq/Abci/mapsites_reviewed.json. *)\n")
 	sb.WriteString("From Coq Require Import String List.\nImport ListNotations.\nOpen Scope string_scope.\n")
-	sb.WriteString("Inductive siteclass := SortedBeforeUse | OrderInsensitive | ErrorOnly | NotInExecPath | LocalOnly | Deterministic | UnsafeDebugFlag | Unreviewed.\n")
+	sb.WriteString("Inductive siteclass := SortedBeforeUse | OrderInsensitive | ErrorOnly | NotInExecPath | LocalOnly | Deterministic | UnsafeDebugFlag | LoggedOnly | HaltsNode | Unreviewed.\n")
 	sb.WriteString("Record site := mkSite { s_file : string; s_func : string; s_kind : string; s_hash : string; s_class : siteclass }.\n")
 	sb.WriteString("Definition sites : list site := [\n")
 	for i := range sites {
